@@ -242,6 +242,10 @@ mod verif_bounded {
                 expect(label, &scen, &format!("find_message_epoch_by_tag_content(g{g}, \"x abcd\")"), "SQLite", s.find_message_epoch_by_tag_content(&gid(g), "x abcd").unwrap(), want);
                 expect(label, &scen, &format!("find_message_epoch_by_tag_content(g{g}, \"x abcd\")"), "memory", m.find_message_epoch_by_tag_content(&gid(g), "x abcd").unwrap(), want);
             }
+            // the SENDER's own announcement is stored as Created until its relay echo arrives: it is a hint like any other
+            { let d = msg(1, 4, 10, 10, Some(7), MessageState::Created, "c", tag("cccc")); m.save_message(d.clone()).unwrap(); s.save_message(d).unwrap(); }
+            expect(label, &scen, "lookup of a file announced by a message still in state Created (the sender's own, before its echo)", "SQLite", s.find_message_epoch_by_tag_content(&gid(1), "x cccc").unwrap(), Some(7));
+            expect(label, &scen, "lookup of a file announced by a message still in state Created (the sender's own, before its echo)", "memory", m.find_message_epoch_by_tag_content(&gid(1), "x cccc").unwrap(), Some(7));
             expect(label, &scen, "lookup of a file announced only without epoch", "SQLite", s.find_message_epoch_by_tag_content(&gid(1), "x ffff").unwrap(), None);
             expect(label, &scen, "lookup of an unknown file", "SQLite", s.find_message_epoch_by_tag_content(&gid(1), "x 0000").unwrap(), None);
             expect(label, &scen, "lookup with LIKE wildcards in the needle", "SQLite", s.find_message_epoch_by_tag_content(&gid(1), "x %").unwrap(), None);
